@@ -37,8 +37,9 @@ class Copy:
     """A non-function item (struct / const / enum) copied mechanically from /repo: regex on masked source locating its start.
     subst: literal substitutions applied to the copied text (logged)."""
 
-    def __init__(self, file, regex, subst=(), prefix='', strip_attrs=True, make_pub=False):
+    def __init__(self, file, regex, subst=(), prefix='', strip_attrs=True, make_pub=False, array_const=False):
         self.file, self.regex, self.subst, self.prefix, self.strip_attrs = file, regex, list(subst), prefix, strip_attrs
+        self.array_const = array_const      # R10: `const X: [T; N] = [..];` -> exec const with its elements as ensures
         self.make_pub = make_pub            # visibility only: `const X` -> `pub const X` (logged)
 
 
